@@ -1,8 +1,8 @@
 """C10 — decoding accepts only the canonical encoding."""
 from decfam import *  # noqa
 
-THEOREMS = ["C10_uint_canonical", "C10_bool_canonical", "C10_bool_rejects_other"]
-PARTIAL = ["C10_canonical / C10_language are proved for uintN and boolean (scoped stream decoding); for composite kinds the accepted language of the implementation is compared with the model on the same input space as C09 and, model-free, every accepted input must re-encode to itself"]
+THEOREMS = ["C10_canonical", "C10_injective", "C10_language", "C10_stream", "C10_uint_canonical", "C10_bool_canonical", "C10_bool_rejects_other"]
+PARTIAL = ["C10_canonical / C10_injective / C10_language / C10_stream are full statements about the decoder model for every type; C10_language's `valid => accepted` direction assumes encodings shorter than 2^32 bytes; that the Python decoders behave as the model on every byte string is tied by the correspondence (accepted language compared on exhaustive short strings, exhaustive first / last bytes of valid encodings, structure-aware corruptions; model-free: accepted => re-encoding reproduces the input)"]
 COQ_IMPORTS = ["RM.Types", "RMR.RunV"]
 COQ_FN = "RunV.run_dec"
 COQ_CASE_TY = "(ty * bytes)"
